@@ -123,6 +123,7 @@ def templates(cfg):
     out.append(Template("c05.samecol.rank", S2, lambda p, t: t >> p.mutate(r=p.rank(arrange=[(t.a * 0 + 1).nulls_last(), t.a.nulls_last()]), d=p.dense_rank(arrange=[t.a.nulls_last(), (-t.a).nulls_last()])), props=("C05",), nmax=3))
     out.append(Template("c05.samecol.rank_part", S2, lambda p, t: t >> p.mutate(r=p.rank(arrange=[(t.a - t.b).nulls_last(), t.a.nulls_last()], partition_by=t.g)), props=("C05",), nmax=3))
     out.append(Template("c05.samecol.cum_sum_part", S2, lambda p, t: t >> p.mutate(r=t.b.cum_sum(arrange=[t.a.nulls_last(), (t.a + 1).descending().nulls_last(), t.b.nulls_last(), t.g.nulls_last()], partition_by=t.g)), props=("C05",), nmax=3))
+    out.append(Template("c05.samecol.arrange_same_key_later_wins", S2, lambda p, t: t >> p.arrange(t.a.nulls_last(), t.b.nulls_last(), t.g.nulls_last()) >> p.arrange(t.a.descending().nulls_first()) >> p.slice_head(2), props=("C05",), nmax=3))
     out.append(Template("c05.samecol.dup_key", S2, lambda p, t: t >> p.mutate(r=p.row_number(arrange=[t.a.nulls_last(), t.b.nulls_last(), t.a.descending().nulls_last()], partition_by=t.g)), props=("C05",), nmax=3))
     out.append(Template("c05.typed.bool_sum_nopart", SB, lambda p, t: t >> p.mutate(s=t.p.sum(), s1=t.p.sum() + 1, e=(t.a > 0).sum()), props=("C05",)))
     out.append(Template("c05.typed.bool_sum_grouped", SB, lambda p, t: t >> p.group_by(t.g) >> p.mutate(s=t.p.sum(), m=t.p.max()) >> p.ungroup(), props=("C05",)))
